@@ -1840,12 +1840,81 @@ def k21_part(ctx: vlib.Ctx, mod):
          imports="UnionModel PackEmit K21Cases", gen_imports="From VerifGen Require Import K21.", needs=("theories/K21Cases.vo",))
 
 
+# ---------------------------------------------------------------------------
+# K22: the translated Literal loops vs the method texts the real generator produces
+# ---------------------------------------------------------------------------
+def k22_part(ctx: vlib.Ctx, mod):
+    import builtins
+    import enum as _enum
+    import mashumaro.core.meta.types.common as _common
+    import mashumaro.core.meta.types.pack as _pack
+    from mashumaro.core.meta.helpers import get_literal_values
+    if not ctx.kernel_report.get("K22", {}).get("ok", False):
+        ctx.not_shown("kernel K22", str(ctx.kernel_report.get("K22", {}).get("error")))
+        return
+    rng = ctx.rng
+    exprs = list(CURATED_LITS)
+    for _ in range(ctx.budget(60, 400)):
+        exprs.append(f"Literal[{', '.join(rng.sample(LIT_POOL, rng.choice([1, 2, 3, 4])))}]")
+    cases, info = [], []
+    for expr in exprs:
+        tp = eval(expr, mod.__dict__)
+        got = {"u": None, "p": None}
+
+        def rec(src, g=None, l=None):
+            if "def __unpack_literal_" in src:
+                got["u"] = src
+            if "def __pack_literal_" in src:
+                got["p"] = src
+            return builtins.exec(src, g, l)
+        olds = (_common.__dict__.get("exec"), _pack.__dict__.get("exec"))
+        _common.exec = _pack.exec = rec
+        try:
+            mod.__dict__["BasicDecoder"](tp)
+            mod.__dict__["BasicEncoder"](tp)
+        except Exception as e:
+            ctx.not_shown("kernel K22 validation", f"{expr}: {type(e).__name__}: {e}"[:300])
+            continue
+        finally:
+            for m_, o_ in ((_common, olds[0]), (_pack, olds[1])):
+                if o_ is None:
+                    del m_.exec
+                else:
+                    m_.exec = o_
+        if not got["u"] or not got["p"]:
+            ctx.not_shown("kernel K22 validation", f"no literal method compiled for {expr}")
+            continue
+
+        def codes(src):
+            out = []
+            for ln in [x.strip() for x in src.splitlines()[1:]]:
+                if re.match(r"if value\.__class__ is .+\]\.value\.__class__ and value == .+\]\.value:$", ln):
+                    out.append(0)
+                elif re.match(r"if value\.__class__ is [\w.]+ and value == [\w.]+\[.+\]:$", ln):
+                    out.append(0)
+                elif re.match(r"if value\.__class__ is \(.+\)\.__class__ and value == .+:$", ln):
+                    out.append(2)
+                elif ln == "try:":
+                    out.append(1)
+                elif ln.startswith("raise "):
+                    out.append(3)
+            return out
+        kinds = [0 if isinstance(l, _enum.Enum) else 1 if isinstance(l, bytes) else 2 for l in get_literal_values(tp)]
+        z = lambda xs: "[" + "; ".join(f"{x}%nat" for x in xs) + "]"
+        cases.append(f"({z(kinds)}, ({z(codes(got['u']))}, {z(codes(got['p']))}))")
+        info.append((expr, codes(got["u"]), codes(got["p"])))
+        ctx.count(("k22", tuple(kinds)))
+    corr(ctx, "K22-translation-vs-generated-source", cases, info, "list nat * (list nat * list nat)", ["k22case_ok"],
+         imports="UnionModel LitEmit K22Cases", gen_imports="From VerifGen Require Import K22.", needs=("theories/K22Cases.vo",))
+
+
 THEOREMS = [
     "C11_union_decode_partial", "C11_union_deviation_char", "C11_union_shadow_result", "C11_union_none_refuted",
     "C11_union_shadow_refuted", "C11_no_cross_coercion", "C11_scalars_first_no_shadow", "C11_union_result_from_member",
     "C11_union_raises_iff", "C11_none_member_never_raises", "C11_deterministic", "C11_union_dedup_invisible", "C11_nested_union_partial", "C11_shape_positions", "C11_typevar_constraints_win", "C11_typevar_partial", "C11_deep_decode_partial", "C11_deep_decode_refuted", "C11_union_emit_correct", "C11_union_emitted_partial", "C11_union_raise_class", "C11_pack_emit_correct", "C11_pack_emitted_partial", "C11_union_encode_ref", "C11_deep_encode_partial", "C11_deep_encode_refuted", "C11_opt",
     "C11_union_encode_partial", "C11_union_encode_refuted", "C11_literal_full", "C11_literal_encode_full",
-    "C11_literal_returns_listed", "C11_literal_accepts_listed",
+    "C11_literal_returns_listed", "C11_literal_accepts_listed", "C11_literal_emit_correct", "C11_literal_emitted_full",
+    "C11_literal_pack_emit_correct", "C11_literal_text_denotes",
 ]
 
 
@@ -1857,7 +1926,7 @@ def run(ctx: vlib.Ctx):
         "dataclass field, List element; inputs: 62 basic-form values of every scalar class, lists, dicts and garbage. "
         "distinct = (member mix in order, path, input class, verdict class, outcome). Literal: 1-4 listed values of "
         "int/bool/str/None/enum/bytes x 27 inputs.")
-    ctx.theorems("props/C11_union.vo", THEOREMS, kernels=["K19", "K21"])
+    ctx.theorems("props/C11_union.vo", THEOREMS, kernels=["K19", "K21", "K22"])
     ctx.trusted += [
         "UnionModel.v is hand-written from UnionUnpackerBuilder._add_body / pack_union / LiteralUnpackerBuilder / expr_or_maybe_none; "
         "tied to /repo only behaviourally (correspondence on every run), parametric in the member (un)packers whose behaviour is "
@@ -1889,6 +1958,7 @@ def run(ctx: vlib.Ctx):
     deep_enc_part(ctx, mod, mem)
     k19_part(ctx, mod)
     k21_part(ctx, mod)
+    k22_part(ctx, mod)
 
 
 # ---------------------------------------------------------------------------
